@@ -281,6 +281,7 @@ theorem invId_lprim {c c' : Cell} {lab : Lab} (hc : InvId c) (hp : LPrim lab c c
   | acquire h => exact invId_acquire hc h
   | appMeta ha hid _ hi hg => exact invId_appSame hc (app?_mem ha) hid hg hi
   | ghost ha => exact invId_appSame hc (app?_mem ha) rfl rfl rfl
+  | setRenew ha => exact invId_appSame hc (app?_mem ha) rfl rfl rfl
   | dropDangling ha _ _ => exact invId_appSame hc (app?_mem ha) rfl rfl rfl
   | forgetIdentity ha _ _ _ _ => exact invId_forget hc (app?_mem ha) rfl rfl rfl
   | tree => exact invId_congr (c := c) rfl rfl hc
